@@ -101,7 +101,7 @@ pub fn enc_c(ops: &[COp]) -> String {
 
 pub fn run(id: usize, rng: &mut Rng) -> String {
     let sc = gen(rng);
-    let cfg = Config { seed: rng.next(), p_timer: *rng.pick(&[0u64, 30, 200]), p_spurious: *rng.pick(&[0u64, 0, 0, 60, 300]), p_preempt: *rng.pick(&[0u64, 0, 0, 100, 400]), ..Config::default() };
+    let cfg = Config { seed: rng.next(), p_timer: *rng.pick(&[0u64, 30, 200]), p_spurious: *rng.pick(&[0u64, 0, 0, 60, 300]), p_preempt: *rng.pick(&[0u64, 0, 0, 100, 400]), max_steps: 100_000, ..Config::default() };
     let hist: Arc<StdMutex<Vec<Vec<String>>>> = Arc::new(StdMutex::new(sc.cons.iter().map(|_| vec![]).collect()));
     let h2 = hist.clone();
     let prods = sc.prods.clone();
@@ -212,7 +212,7 @@ pub fn run(id: usize, rng: &mut Rng) -> String {
         if quiet { 1 } else { 0 },
         if rep.aborted { 1 } else { 0 },
         rep.clock
-    )
+    ) + &format!(" steps={}", rep.steps)
 }
 
 /// how often a thread was preempted while holding a mutex it had just taken
